@@ -19,6 +19,7 @@ R6  the "open item's marker is a prefix of the new marker" test quantifies over
 from __future__ import annotations
 
 import ast
+import re
 
 from ..core.index import unparse, walk_no_nested
 from ..core.report import AnalysisError, Finding, RuleResult
@@ -291,7 +292,37 @@ def rule_r6(ctx) -> RuleResult:
     rr = RuleResult("C02.R6", "the open marker must match at *every* position to nest the new item", min_instances=1)
     dotted = "parser.list_fn"
     fn = ctx.fn(dotted)
-    cands = [n for n in ast.walk(fn) if isinstance(n, ast.If) and "len(node.sarg) < len(token)" in unparse(n.test)]
+    # list_fn and the helper functions a refactoring split off from it (functions of parser.py that the pinned tree does not
+    # have and that list_fn reaches): the branch is looked for in all of them
+    from ..core import canon
+    pinned = set(canon.reference().get("parser", {}).get("functions", {}))
+    m = ctx.index.mod("parser")
+    scope, todo = [fn], [fn]
+    while todo:
+        f_ = todo.pop()
+        for c in ast.walk(f_):
+            if isinstance(c, ast.Call) and isinstance(c.func, ast.Name) and c.func.id in m.funcs and c.func.id not in pinned:
+                g = m.funcs[c.func.id]
+                if g not in scope:
+                    scope.append(g)
+                    todo.append(g)
+    # a length requirement other than `shorter than`: an (in)equality between the length of the open marker and the length
+    # of (a part of) the new one admits exactly one nesting depth -- `* a` followed by `*** b` no longer nests
+    for f_ in scope:
+        for c in ast.walk(f_):
+            if isinstance(c, ast.Compare) and len(c.ops) == 1 and isinstance(c.ops[0], (ast.Eq, ast.NotEq)):
+                sides = [c.left, c.comparators[0]]
+                if all(isinstance(x, ast.Call) and unparse(x.func) == "len" and x.args for x in sides):
+                    txt = [unparse(x.args[0]) for x in sides]
+                    names = " ".join(txt)
+                    if ("token" in names or "prefix" in names) and ("sarg" in names or "item" in names or "prefix" in names) and txt[0] != txt[1]:
+                        rr.bad(Finding("C02.R6", P.PARSER, "parser." + f_.name, unparse(c)[:100],
+                                       "nesting requires the markers' lengths to differ by a fixed amount: an item whose marker is a proper "
+                                       "prefix of the new one by more than one level (`*` then `***`) is closed instead of becoming the parent",
+                                       c.lineno))
+    if rr.findings:
+        return rr
+    cands = [n for f_ in scope for n in ast.walk(f_) if isinstance(n, ast.If) and re.search(r"len\(\w+\.sarg\) < len\(token\)", unparse(n.test))]
     if len(cands) != 1:
         raise AnalysisError("list_fn: proper-prefix branch (`len(node.sarg) < len(token)`) not found")
     br = cands[0]
